@@ -1,6 +1,6 @@
 #!/bin/sh
 # runs every thorough check once, sequentially; prints one summary line per property
-for p in C20 C18 C08 C10 C11 C12 C14 C13 C01 C02 C15 C03 C04 C05 C06 C07 C09 C16 C17 C19; do
+for p in ${THOROUGH_LIST:-C20 C18 C08 C10 C11 C12 C14 C13 C01 C02 C15 C03 C04 C05 C06 C07 C09 C16 C17 C19}; do
   t0=$(date +%s)
   ./check $p --tier thorough > thorough_$p.log 2>&1
   rc=$?
